@@ -25,6 +25,72 @@ def _node_class_of(call):
     return None
 
 
+
+def verbatim_first_read_paths(fn):
+    """Syntax-directed walk of a parser method: for every path from the entry to the first call that reads characters or
+    tokens from the reader (next_chars / peek_chars / next_token / peek_token), yield (events before it, the reading call);
+    events are ('SKIP', call) for skip_space_chars and ('POS', call) for cur_pos().  Both arms of every `if`, zero or one
+    iteration of every loop; a path that raises or returns before reading yields nothing."""
+    READ = ('next_chars', 'peek_chars', 'next_token', 'peek_token')
+
+    def calls_in(node):
+        cs = [c for c in ast.walk(node) if isinstance(c, ast.Call)]
+        return sorted(cs, key=lambda c: (c.end_lineno, c.end_col_offset))      # evaluation order: inner calls end first
+
+    def scan(node, evs):
+        """returns ('read', evs, call) or ('go', evs)"""
+        for c in calls_in(node):
+            nm = call_name(c)
+            if nm in READ:
+                return ('read', evs, c)
+            if nm == 'skip_space_chars':
+                evs = evs + [('SKIP', c)]
+            elif nm == 'cur_pos':
+                evs = evs + [('POS', c)]
+        return ('go', evs)
+
+    out = []
+
+    def walk(stmts, evs):
+        """returns list of event lists for paths that fall through"""
+        paths = [evs]
+        for st in stmts:
+            nxt = []
+            for ev in paths:
+                if isinstance(st, ast.If):
+                    r = scan(st.test, ev)
+                    if r[0] == 'read':
+                        out.append((r[1], r[2])); continue
+                    nxt.extend(walk(st.body, r[1]))
+                    nxt.extend(walk(st.orelse, r[1]))
+                elif isinstance(st, (ast.While, ast.For)):
+                    r = scan(st.test if isinstance(st, ast.While) else st.iter, ev)
+                    if r[0] == 'read':
+                        out.append((r[1], r[2])); continue
+                    nxt.append(r[1])
+                    nxt.extend(walk(st.body, r[1]))
+                elif isinstance(st, (ast.Raise, ast.Return)):
+                    r = scan(st, ev)
+                    if r[0] == 'read':
+                        out.append((r[1], r[2]))
+                elif isinstance(st, (ast.Try, ast.With)):
+                    nxt.extend(walk(st.body, ev))
+                elif isinstance(st, (ast.FunctionDef, ast.ClassDef)):
+                    nxt.append(ev)
+                else:
+                    r = scan(st, ev)
+                    if r[0] == 'read':
+                        out.append((r[1], r[2]))
+                    else:
+                        nxt.append(r[1])
+            paths = nxt
+            if len(paths) > 64:
+                paths = paths[:64]
+        return paths
+    walk(fn.body, [])
+    return out
+
+
 def run(ctx):
     repo = ctx.repo
     ctx.rule('R01a', 'chars span: every LatexCharsNode is built with pos_end - pos == len(chars) '
@@ -743,6 +809,34 @@ def run(ctx):
                        'the marker text gets %s for a token, not the token\'s whole text (%s): the chars node still ends at the '
                        'token\'s pos_end, so its text is shorter than the source it spans (`--` read as the marker `-`, the second '
                        'dash belongs to no node)' % (badp[:2], ' / '.join(whole)), construct='chars marker: token text')
+
+    # ---- R01x: the delimited verbatim argument starts at its opening delimiter
+    ctx.rule('R01x', 'LatexDelimitedVerbatimParser.parse: on every path the start position of the group (the `cur_pos()` taken '
+                     'before the first character is read) is taken after the white space in front of the argument has been '
+                     'skipped (skip_space_chars) and nothing is skipped between taking it and reading the opening delimiter: '
+                     'the group node spans `|b|`, not the blanks before it, which belong to no argument '
+                     '(syntax-directed walk of the statement order, both arms of every branch)', 1)
+    vm_ = repo.mod('pylatexenc.latexnodes.parsers._verbatim')
+    vp_ = vm_.methods('LatexDelimitedVerbatimParser').get('parse')
+    if vp_ is None:
+        raise AnalysisError('anchor vanished: LatexDelimitedVerbatimParser.parse')
+    n1x = 0
+    for evs_, rd_ in verbatim_first_read_paths(vp_):
+        kinds_ = [k_ for k_, _n in evs_]
+        if 'POS' not in kinds_:
+            continue
+        n1x += 1
+        ip_ = len(kinds_) - 1 - kinds_[::-1].index('POS')
+        ok_ = 'SKIP' in kinds_[:ip_] and 'SKIP' not in kinds_[ip_ + 1:]
+        ctx.decide('R01x', ok_, vm_, rd_, 'start position taken after the white space, right before the delimiter is read',
+                   'LatexDelimitedVerbatimParser.parse: on the path [%s] the start position of the group is taken %s: the group '
+                   'node of a verbatim argument that is preceded by white space starts in front of its opening delimiter and '
+                   'overlaps the blanks that no argument owns' % (
+                       ' > '.join(kinds_ + ['READ']),
+                       'before the white space is skipped' if 'SKIP' in kinds_[ip_ + 1:] else 'without white space being skipped'),
+                   construct='verbatim argument start [%s]' % ' > '.join(kinds_ + ['READ']))
+    if not n1x:
+        ctx.unknown('R01x', vm_, vp_, 'no path that takes cur_pos() before reading the delimiter', construct='verbatim argument start')
 
     return 'other', (
         'Span algebra at every construction site: for each chars node pos_end - pos - len(chars) '
